@@ -1009,6 +1009,12 @@ func (rl *Shell) viYankWholeLine() {
 		epos--
 	}
 
+	// The line might be made of that newline only.
+	if epos < bpos {
+		rl.selection.Reset()
+		return
+	}
+
 	// Pass the buffer to register.
 	buffer := (*rl.line)[bpos:epos]
 	rl.Buffers.Write(buffer...)
